@@ -16,7 +16,8 @@ RULE = ("Hypothesis-generated histories: 1-2 root objects on one resource plus r
         "interleaved with an OUTSIDE WRITER that rewrites the resource: a position anywhere in the "
         "document is replaced by a new JSON value with the (old kind -> new kind) pair steered "
         "uniformly over {null,scalar,dict,list}^2 plus same-kind-other-content, list longer/shorter, "
-        "key added/removed and equal rewrites; then every read API is issued through roots and "
+        "key added/removed and equal rewrites, and (JSON classes) valid JSON of the OTHER root kind, "
+        "after which every operation must raise until a repairing rewrite; then every read API is issued through roots and "
         "handles, and setitem/append/delitem/setdefault through handles. Oracle: every outcome equals "
         "the plain model of the resource at call time (==), for handles only while attached by the "
         "C02 wording; after a write the independently read resource equals the model. Non-trivial = "
@@ -24,8 +25,8 @@ RULE = ("Hypothesis-generated histories: 1-2 root objects on one resource plus r
         "outcome differs from what it would have been before that rewrite; distinct by (class, kind "
         "pair, op, handle depth, relation of rewrite position to handle).")
 ASSUMPTIONS = [
-    "root-kind changes are not generated (documented ValueError); handles detached by the wording of C02 "
-    "are not checked",
+    "while the resource holds the other root kind operations must raise (documented ValueError); handles "
+    "detached by the wording of C02 are not checked",
     "the outside writer stores the whole document (fakes for Redis/MongoDB/Zarr)",
     "reads compared with == on plain data (1 == True == 1.0); leaf-type exactness is C12's",
 ]
@@ -128,7 +129,13 @@ def _gen_step(ci, dom, st8):
             if s is not None:
                 st8["loaded"].add(w.handles[s["h"]].obj)
                 return s
-        if c < 10:
+        if c == 9 and ci.backend == "json" and 0 not in w.poisoned and draw(st.integers(0, 2)) == 0:
+            # valid JSON of the other root kind: reads must fail until the next (repairing) rewrite
+            other = [1, {"a": 2}] if ci.kind == "dict" else {"a": [1]}
+            st8["loaded"] = set()
+            st8["before"] = None
+            return {"t": "rewrite", "r": 0, "doc": enc(other), "poison": True}
+        if c < 10 or 0 in w.poisoned and c < 14:
             s = draw_rewrite(draw, w, dom)
             st8["loaded"] = set()
             st8["before"] = copy.deepcopy(w.docs[0])
